@@ -338,6 +338,8 @@ register(PropertySpec(
              "the record of what was pulled from a one-shot source is appended to only with the value just pulled, and emptied only by clear()"),
         Rule("SLOT-STORE-LINKED", _lazy("history", "rule_slot_store_linked"), 3,
              "a node put into another node's operand / child slot after construction is linked below it in the graph as well (the reset and the cache invalidation follow the graph)"),
+        Rule("REG-SNAPSHOT", _lazy("registry", "rule_reg_snapshot"), 1,
+             "the stores of a class and of its subclasses are all read before the first instance is handed out: an evaluation that also constructs instances does not range over its own output"),
     ],
     explanation="History independence is absence of residue on the shared expression nodes. Decided: where residue is "
                 "written (discovered mechanically from dataclass fields and mutation sites reachable from evaluation "
@@ -788,6 +790,8 @@ register(PropertySpec(
              "a node put into another node's operand / child slot after construction is linked below it in the graph as well (the reset and the cache invalidation follow the graph)"),
         Rule("REG-ONLY-INSTANCES", _lazy("registry", "rule_reg_only_instances"), 1,
              "what a class's own __new__ returns is registered only when it is an instance of the class"),
+        Rule("REG-SNAPSHOT", _lazy("registry", "rule_reg_snapshot"), 1,
+             "the stores of a class and of its subclasses are all read before the first instance is handed out: an evaluation that also constructs instances does not range over its own output"),
     ],
     explanation="Registry discipline is ownership: a single writer, on a must-pass-through path of the concrete "
                 "constructor arm, keyed by the runtime class; the symbolic arm provably (call-graph closure) cannot "
@@ -1205,6 +1209,8 @@ register(PropertySpec(
              "the variables of a node are those of every sub-expression it evaluates, of whatever kind; a node counts itself only if it takes several values under one binding"),
         Rule("EXPR-IDENTITY", _lazy("ruletree", "rule_expr_identity"), 1,
              "(shared with C12) engine code compares nodes by identity (== / in on a node reads an unset field of the graph node, or builds a comparison)"),
+        Rule("REG-SNAPSHOT", _lazy("registry", "rule_reg_snapshot"), 1,
+             "the stores of a class and of its subclasses are all read before the first instance is handed out: an evaluation that also constructs instances does not range over its own output"),
     ],
     explanation="All clauses are weak but necessary: arguments evaluated under the current binding, one construction "
                 "per combination, no retrieval instead of construction for inferred variables, existing objects passed "
